@@ -766,6 +766,18 @@ pub fn case_api(cx: &mut Ctx, ops: &[Op]) {
     cx.nontrivial(&line);
     let vtt = m.ver << 6 | m.typ << 4 | m.tkl;
     let want = rfc_wire(vtt, m.code, m.mid, &m.tok, &flat, &m.pay);
+    // C05 through the encoder: the option numbers an independent parser reads off the wire are the
+    // numbers of the options that were added (no option goes out under another option's number)
+    if let Some((_, Ok(b))) = &r {
+        let wire_nums: Option<Vec<u16>> = match ref_parse(b) {
+            RefVerdict::MustAccept(f) | RefVerdict::Either(f) => Some(f.opts.iter().map(|(n, _)| *n).collect()),
+            RefVerdict::MustReject(_) => None,
+        };
+        let added: Vec<u16> = flat.iter().map(|(n, _)| *n).collect();
+        if wire_nums.as_ref() != Some(&added) {
+            cx.oracle_fail("C05", &line, &format!("options {:?} were set but the encoded message carries option numbers {:?}", added, wire_nums));
+        }
+    }
     match &r {
         Some((_, Ok(b))) if *b == want => {
             // and decode back
